@@ -147,6 +147,8 @@ func init() {
 			{"config-pure", "image API never writes into the caller's ImageConfig/ImageSize (mutation summaries)", ruleConfigPure},
 			{"alloc-scans-all", "the relationship id allocator's scanning loop has no early exit", ruleAllocScansAll},
 			{"counter-numeric", "the restored image counter is a numeric maximum, not a lexicographic one", ruleCounterNumeric},
+			{"counter-monotonic", "the image counter only ever increases after Open", ruleCounterMonotonic("Document")},
+			{"clone-alias", "a rendered document does not share relationship, content-type or part tables with its template", ruleCloneAliasFor("Relationships", "ContentTypes", "Document")},
 		},
 		Assumptions: commonAssumptions,
 	}
@@ -211,6 +213,7 @@ func init() {
 			{"must-update", "registrations on every path", ruleMustUpdate},
 			{"part-from-registry", "regenerated notes/numbering parts contain every registry entry (unfiltered range loop over the registry map)", rulePartFromRegistry("Footnotes", "Endnotes", "Numbering")},
 			{"toc-config-flow", "functions given a TOC configuration collect headings with that configuration's level on every path", ruleTOCConfigFlow},
+			{"counter-monotonic", "note and numbering id counters only ever increase", ruleCounterMonotonic("FootnoteManager", "NumberingManager")},
 		},
 		Assumptions: commonAssumptions,
 	}
@@ -224,6 +227,8 @@ func init() {
 			{"closure-ret", "unknown variables stay", ruleClosureRet},
 			{"regex-repl-literal", "run-time strings never become an expanding regexp replacement ($-interpretation)", ruleRegexReplLiteral},
 			{"nested-untainted", "nested loop expansion happens before the item's scalar fields are substituted (data-flow)", ruleNestedUntainted},
+			{"token-agreement", "block openers are recognised by the compiled pattern only (no second hand-written recogniser)", ruleTokenAgreement},
+			{"cross-call-state", "the engine keeps no render results between calls except its guarded template cache", ruleCrossCallStateEngine},
 		},
 		Assumptions: append([]string{"RE2 leftmost-first semantics as documented by package regexp"}, commonAssumptions...),
 	}
@@ -237,6 +242,7 @@ func init() {
 			{"render-pure", "rendering writes only the clone", ruleRenderPure},
 			{"clone-pure", "clone functions do not write their source", ruleClonePure},
 			{"clone-alias", "the clone shares no library-mutable object with the base document", ruleCloneAliasFor()},
+			{"cross-call-state", "the engine keeps no render results between calls except its guarded template cache", ruleCrossCallStateEngine},
 		},
 		Assumptions: commonAssumptions,
 	}
@@ -262,6 +268,7 @@ func init() {
 			{"style-id", "emitted style ids ⊆ registry", func(r *Run) { ruleStyleID(r, pkgMd) }},
 			{"cross-call-state", "no renderer field carries values from one block to the next except the frozen, reasoned ones", ruleCrossCallState("WordRenderer", "(*WordRenderer).Render")},
 			{"softbreak", "every Text node reaches the soft-break test (must-pass-through in the Text case)", ruleSoftBreak},
+			{"code-verbatim", "code block lines are taken from the source without trimming leading whitespace", ruleCodeVerbatim},
 		},
 		Assumptions: append([]string{"goldmark v1.7.8 node set; classification table in the checker (one reason per kind)"}, commonAssumptions...),
 	}
